@@ -12,10 +12,9 @@ CONSTANTS
   AtomCodes <- AtomCodesDef
   FmtPieces <- FmtPiecesDef
 INVARIANTS
-  NotRejected
   TraceRefines
-  FreshIsFresh
-  NodesAcyclic
+  TFresh
+  TAcyclic
 PROPERTIES
   TCutCommits
   TNoRetry
@@ -32,25 +31,41 @@ def has_goal(prog, pred):
     return any(g(c["body"]) for c in prog)
 
 
+def features(prog):
+    cut = has_goal(prog, lambda x: x.get("g") == "bip" and x.get("f") == "!")
+    neg = has_goal(prog, lambda x: x.get("g") == "not")
+    prt = has_goal(prog, lambda x: x.get("g") == "bip" and x.get("f") in ("print", "print_list", "nl"))
+    return cut, neg, prt
+
+
+def relevant(prop, prog):
+    """Does a recorded run of this program exercise the property?"""
+    cut, neg, prt = features(prog)
+    return {"C01": not cut and not neg, "C02": cut, "C03": neg, "C04": prt, "C05": True}.get(prop, False)
+
+
 def classify(rej, lines):
-    """Which properties does a rejected trace speak about?"""
+    """Which properties does a rejected run speak about?  A divergence of a run whose program
+    contains `!` is attributed to C02, one with not(...) to C03, a reply that differs only in the
+    text written to C04, anything in a program without cut / not to C01, and any divergence after
+    the engine's first "no more" to C05."""
     at = rej["at"]
     prog = None
     for i in range(min(at, len(lines)) - 1, -1, -1):
-        r = json.loads(lines[i])
-        if r.get("e") == "program":
-            prog = r
+        if lines[i].startswith('{"e":"program"'):
+            prog = json.loads(lines[i])
             break
     props = set()
-    if rej.get("retdiff") == "out":
-        props.add("C04")
-    else:
-        props.add("C01")
     if prog:
-        if has_goal(prog["prog"], lambda x: x.get("g") == "bip" and x.get("f") == "!"):
+        cut, neg, prt = features(prog["prog"])
+        if cut:
             props.add("C02")
-        if has_goal(prog["prog"], lambda x: x.get("g") == "not"):
+        if neg:
             props.add("C03")
+        if not cut and not neg:
+            props.add("C01")
+        if rej.get("retdiff") == "out" or (prt and rej.get("retdiff") == ""):
+            props.add("C04")
     if rej.get("exhausted"):
         props.add("C05")
     return props, prog
@@ -71,18 +86,22 @@ def validate(trace_path, wd, timeout):
                             "-noGenerateSpecTE", "-config", "TraceSolver.cfg", "TraceSolver.tla"],
                            cwd=wd, env=env, stdout=out, stderr=subprocess.STDOUT)
     shutil.rmtree(os.path.join(wd, "md"), ignore_errors=True)
-    res = dict(accepted=None, rejected=None, violated=[], states=0, transitions=0, wall=time.time() - t0, rc=p.returncode, out=out_path)
+    res = dict(accepted=None, rejected=None, rejections=[], violated=[], states=0, transitions=0, wall=time.time() - t0, rc=p.returncode, out=out_path)
     for line in open(out_path, errors="replace"):
-        if line.startswith('<<"ACCEPTED"'):
+        if line.startswith('<<"VALIDATED"'):
             m = re.findall(r"\d+", line)
-            res["accepted"] = (int(m[0]), int(m[1]))
+            res["validated"] = (int(m[0]), int(m[1]), int(m[2]))       # runs accepted, runs rejected, trace lines
+            if int(m[1]) == 0:
+                res["accepted"] = (int(m[0]), int(m[2]))
         elif line.startswith('<<"REJECTED"'):
-            res["rejected"] = line.strip()
+            res["rejections"].append(line.strip())
+            if res["rejected"] is None:
+                res["rejected"] = line.strip()
         m = vcheck.STATS_RE.search(line)
         if m:
             res["transitions"], res["states"] = int(m.group(1)), int(m.group(2))
         m = re.search(r"(Invariant|Action property|Temporal property) (\w+) (is|was) violated", line)
-        if m and m.group(2) != "NotRejected":
+        if m:
             res["violated"].append(m.group(2))
     if p.returncode == 124:
         raise vcheck.ToolError("TLC trace validation timed out (%s)" % out_path)
@@ -100,6 +119,9 @@ def parse_rejected(line):
     return rej
 
 
+MACHINE_INVARIANTS = "TraceRefines TFresh TAcyclic TCutCommits TNoRetry TCutIsLocal".split()
+
+
 def run(jobname, job, prop, tier, seed, wd, acc):
     os.makedirs(wd, exist_ok=True)
     runs = job["runs"][tier]
@@ -109,42 +131,62 @@ def run(jobname, job, prop, tier, seed, wd, acc):
     if p.returncode != 0:
         raise vcheck.ToolError("gen-trace failed: %s" % p.stderr[-1000:])
     lines = open(trace).read().split("\n")
-    nruns = sum(1 for l in lines if l.startswith('{"e":"program"'))
+    progs = [json.loads(l) for l in lines if l.startswith('{"e":"program"')]
+    nruns = len(progs)
     res = validate(trace, wd, job.get("timeout", {}).get(tier, 1800))
     vcheck.log("trace validation %s: %d runs, %d events, %d states, %.1fs -> %s" %
                (jobname, nruns, len(lines), res["states"], res["wall"],
-                "accepted" if res["accepted"] else "REJECTED" if res["rejected"] else "violated %s" % res["violated"]))
-    ok_runs = nruns
-    if res["rejected"]:
-        rej = parse_rejected(res["rejected"])
+                "accepted" if res["accepted"] else "%d runs REJECTED" % len(res["rejections"]) if res["rejections"]
+                else "violated %s" % res["violated"]))
+    if res["violated"]:
+        # these are properties of the MACHINE on the recorded program, not of the implementation
+        raise vcheck.ToolError("the specification itself violates %s on a recorded program (Solver.tla vs SLD.tla): see %s"
+                               % (res["violated"], res["out"]))
+    if "validated" not in res:
+        raise vcheck.ToolError("trace validation ended without a verdict (exit %d, %s)" % (res["rc"], res["out"]))
+    rejected_runs = set()
+    for line in res["rejections"]:
+        rej = parse_rejected(line)
         props, prog = classify(rej, lines)
-        ok_runs = rej["runs_ok"]
+        if prog is not None:
+            rejected_runs.add(prog.get("run"))
         ev = lines[rej["at"] - 1] if 0 < rej["at"] <= len(lines) else "end of trace"
         if prop in props:
-            acc["bad"].append({"job": jobname, "case": {"t": "trace", "program": prog, "trace_file": trace, "line": rej["at"]},
+            acc["bad"].append({"job": jobname,
+                               "case": {"t": "trace", "prog": prog and prog["prog"], "query": prog and prog["query"],
+                                        "family": prog and prog.get("family"), "trace_file": trace, "line": rej["at"]},
                                "obs": {"prop": prop, "kind": "trace-rejected",
                                        "detail": "the recorded execution is not a behaviour of Solver.tla: at trace line %d the engine logged %s while the model was at %s (%s)"
                                                  % (rej["at"], ev[:200], rej["model"], "reply differs in " + rej["retdiff"] if rej["retdiff"] else "event mismatch")}})
-    elif res["violated"]:
-        owners = {"TraceRefines": {"C01", "C03", "C04", "C05"}, "TCutCommits": {"C02"}, "TNoRetry": {"C02"}, "TCutIsLocal": {"C02"},
-                  "FreshIsFresh": {"C10"}, "NodesAcyclic": {"C08"}}
-        for v in res["violated"]:
-            if prop in owners.get(v, set()):
-                acc["bad"].append({"job": jobname, "case": {"t": "trace", "trace_file": trace},
-                                   "obs": {"prop": prop, "kind": "trace-" + v, "detail": "%s is violated on a recorded execution (see %s)" % (v, res["out"])}})
-        ok_runs = 0
-    elif not res["accepted"]:
-        raise vcheck.ToolError("trace validation ended without a verdict (exit %d, %s)" % (res["rc"], res["out"]))
-    acc["evaluations"] += ok_runs
-    acc["kinds"]["%s:trace-accepted" % prop] += ok_runs
-    for i in range(ok_runs):
-        acc["distinct"].add("trace-%s-%d-%d" % (jobname, seed, i))
+    mine = [pg for pg in progs if relevant(prop, pg["prog"]) and pg.get("run") not in rejected_runs]
+    acc["evaluations"] += len(mine)
+    acc["kinds"]["%s:trace-accepted" % prop] += len(mine)
+    fams = {}
+    for pg in mine:
+        acc["distinct"].add("trace-%s-%d-%s" % (jobname, seed, pg.get("run")))
+        fams[str(pg.get("family"))] = fams.get(str(pg.get("family")), 0) + 1
     if len(acc["samples"]) < 4 and lines:
         end = next((i for i, l in enumerate(lines[1:], 1) if l.startswith('{"e":"program"')), len(lines))
         acc["samples"].append({"job": jobname, "recorded_run": [json.loads(l) for l in lines[:min(end, 25)] if l]})
-    return dict(states=res["states"], transitions=res["transitions"], traces=ok_runs,
-                summary={"job": jobname, "module": "TraceSolver", "runs_recorded": nruns, "runs_accepted": ok_runs,
+    return dict(states=res["states"], transitions=res["transitions"], traces=len(mine),
+                summary={"job": jobname, "module": "TraceSolver", "runs_recorded": nruns, "runs_validated": res["validated"][0],
+                         "runs_rejected": res["validated"][1], "runs_for_this_property": len(mine), "by_family": fams,
                          "events": len(lines), "states": res["states"], "tlc_s": round(res["wall"], 1)})
+
+
+def replay(case, wd):
+    """Re-record the program of a rejected run on the current tree and validate it again."""
+    os.makedirs(wd, exist_ok=True)
+    pj = os.path.join(wd, "program.json")
+    json.dump({"prog": case["prog"], "query": case["query"]}, open(pj, "w"))
+    trace = os.path.join(wd, "trace.ndjson")
+    p = subprocess.run([vcheck.HARNESS_BIN, "record", pj, trace], cwd=wd, stdout=subprocess.PIPE, stderr=subprocess.PIPE, text=True)
+    if p.returncode != 0:
+        raise vcheck.ToolError("record failed: %s" % p.stderr[-1000:])
+    res = validate(trace, wd, 600)
+    if res["violated"] or "validated" not in res:
+        raise vcheck.ToolError("trace validation of the replay ended without a verdict (%s)" % res["out"])
+    return [parse_rejected(l) for l in res["rejections"]]
 
 
 def selftest():
